@@ -58,7 +58,7 @@ Finish(stmts) ==
           IN full
 
 \* ---------------------------------------------------------------- cells
-Shapes1 == {<<>>, <<3>>, <<0>>, <<2, 3>>, <<1, 3>>, <<2, 1>>}
+Shapes1 == {<<>>, <<3>>, <<0>>, <<2, 3>>, <<1, 3>>, <<2, 1>>, <<7>>}       \* (filler A is zero at position 7: the kinks are hit)
 BPairs == {<<<<3>>, <<3>>>>, <<<<2, 3>>, <<3>>>>, <<<<2, 1>>, <<1, 3>>>>, <<<<>>, <<3>>>>, <<<<2, 3>>, <<>>>>, <<<<0>>, <<0>>>>,
            <<<<2, 3>>, <<2, 3>>>>, <<<<1, 3>>, <<2, 1>>>>}
 Kinds2 == {<<FALSE, FALSE>>, <<FALSE, TRUE>>, <<TRUE, FALSE>>}          \* constant flags of the two operands
@@ -166,9 +166,101 @@ MoveProgs ==
         << Leaf(1, <<2, 1, 3>>, "A", FALSE), [k |-> "op", h |-> 2, f |-> "squeeze", a |-> <<Opnd(1)>>] >>,
         << Leaf(1, <<2, 1, 3>>, "A", FALSE), [k |-> "op", h |-> 2, f |-> "squeeze", a |-> <<Opnd(1)>>, axis |-> <<1>>] >>}
 
+\* ---------------------------------------------------------------- activations with kinks (every kink is hit by the fillers)
+ActProgs ==
+  {<< Leaf(1, sh, "A", FALSE), [k |-> "op", h |-> 2, f |-> "leaky_relu", a |-> <<Opnd(1)>>, p1 |-> sl] >> :
+     sh \in {<<3>>, <<2, 3>>, <<>>, <<11>>}, sl \in {H2(1), Q(0), Q(-2), Q(1)}}
+  \cup {<< Leaf(1, sh, "A", FALSE), [k |-> "op", h |-> 2, f |-> "hard_tanh", a |-> <<Opnd(1)>>, p1 |-> b[1], p2 |-> b[2]] >> :
+          sh \in {<<11>>, <<2, 3>>}, b \in {<<Q(-1), Q(1)>>, <<Q(-3), Q(2)>>, <<H2(-1), H2(5)>>}}
+  \cup {<< Leaf(1, sh, "A", FALSE), [k |-> "op", h |-> 2, f |-> "clip", a |-> <<Opnd(1)>>, p1 |-> b[1], p2 |-> b[2]] >> :
+          sh \in {<<11>>, <<2, 3>>}, b \in {<<Q(-1), Q(1)>>, <<Q(-3), Q(2)>>, <<H2(-3), H2(3)>>}}
+  \cup {<< Leaf(1, sh, nm, FALSE), [k |-> "op", h |-> 2, f |-> "soft_sign", a |-> <<Opnd(1)>>] >> :
+          sh \in {<<3>>, <<2, 3>>, <<>>, <<11>>}, nm \in {"A", "B"}}
+\* ---------------------------------------------------------------- cumulative operations
+CumProgs ==
+  UNION {UNION {{<< Leaf(1, sh, nm, FALSE), [k |-> "op", h |-> 2, f |-> f, a |-> <<Opnd(1)>>, kw |-> kw] >> :
+                   kw \in {<<>>} \cup {[axis |-> <<ax>>] : ax \in (0..(Len(sh) - 1)) \cup {-1 : x \in 1..Len(sh)}},
+                   nm \in {"A", "NZ"}}
+                : sh \in {<<4>>, <<2, 3>>, <<>>, <<2, 1, 2>>}} : f \in {"cumsum", "cumprod"}}
+  \* cumprod with one zero and with several zeros per lane
+  \cup {<< [k |-> "leaf", h |-> 1, sh |-> <<2, 3>>, v |-> vv, const |-> FALSE],
+           [k |-> "op", h |-> 2, f |-> "cumprod", a |-> <<Opnd(1)>>, kw |-> kw] >> :
+          vv \in {<<Q(2), Q(0), Q(3), Q(-1), Q(4), Q(2)>>, <<Q(0), Q(0), Q(3), Q(-1), Q(0), Q(2)>>, <<Q(0), Q(0), Q(0), Q(1), Q(2), Q(3)>>,
+                  <<Q(3), Q(2), Q(0), Q(0), Q(2), Q(3)>>},
+          kw \in {<<>>, [axis |-> <<0>>], [axis |-> <<1>>]}}
+\* ---------------------------------------------------------------- n-ary sequence operations
+SeqProgs ==
+  {<< Leaf(1, p[1], "A", k[1]), Leaf(2, p[2], "B", k[2]), Leaf(3, p[3], "NZ", FALSE),
+      [k |-> "op", h |-> 4, f |-> f, a |-> os] >> :
+     f \in {"addseq", "mulseq"}, k \in Kinds2,
+     p \in {<<<<3>>, <<3>>, <<3>>>>, <<<<2, 3>>, <<3>>, <<>>>>, <<<<2, 1>>, <<1, 3>>, <<2, 3>>>>},
+     os \in {<<Opnd(1), Opnd(2), Opnd(3)>>, <<Opnd(1), Opnd(2)>>, <<Opnd(3), Opnd(1), Opnd(3), Opnd(2)>>, <<Opnd(1), [s |-> Q(2)], Opnd(2)>>}}
+\* ---------------------------------------------------------------- einsum (labels are integers: 0 = 'a', 1 = 'b', ...)
+EinProgs ==
+  {<< Leaf(1, c.sh[1], "A", FALSE), Leaf(2, c.sh[2], "B", k), [k |-> "op", h |-> 3, f |-> "einsum", a |-> c.a, subs |-> c.subs, out |-> c.out] >> :
+     k \in BOOLEAN,
+     c \in {[sh |-> <<<<2, 3>>, <<3, 2>>>>, a |-> <<Opnd(1), Opnd(2)>>, subs |-> <<<<0, 1>>, <<1, 2>>>>, out |-> <<0, 2>>],     \* ij,jk->ik
+            [sh |-> <<<<2, 3>>, <<3, 2>>>>, a |-> <<Opnd(1), Opnd(2)>>, subs |-> <<<<0, 1>>, <<1, 2>>>>, out |-> <<2, 0>>],     \* ij,jk->ki
+            [sh |-> <<<<2, 3>>, <<2, 3>>>>, a |-> <<Opnd(1), Opnd(2)>>, subs |-> <<<<0, 1>>, <<0, 1>>>>, out |-> <<>>],         \* ij,ij->
+            [sh |-> <<<<2, 3>>, <<2, 3>>>>, a |-> <<Opnd(1), Opnd(2)>>, subs |-> <<<<0, 1>>, <<0, 1>>>>, out |-> <<0>>],        \* ij,ij->i
+            [sh |-> <<<<3>>, <<3>>>>, a |-> <<Opnd(1), Opnd(2)>>, subs |-> <<<<0>>, <<0>>>>, out |-> <<>>],                     \* i,i->
+            [sh |-> <<<<3>>, <<2>>>>, a |-> <<Opnd(1), Opnd(2)>>, subs |-> <<<<0>>, <<1>>>>, out |-> <<0, 1>>],                 \* i,j->ij
+            [sh |-> <<<<3>>, <<2>>>>, a |-> <<Opnd(1), Opnd(2)>>, subs |-> <<<<0>>, <<1>>>>, out |-> <<1, 0>>],                 \* i,j->ji
+            [sh |-> <<<<2, 3>>, <<3>>>>, a |-> <<Opnd(1), Opnd(2)>>, subs |-> <<<<0, 1>>, <<1>>>>, out |-> <<0>>],              \* ij,j->i
+            [sh |-> <<<<2, 2>>, <<2>>>>, a |-> <<Opnd(1), Opnd(2)>>, subs |-> <<<<0, 0>>, <<0>>>>, out |-> <<0>>],              \* ii,i->i
+            [sh |-> <<<<2, 2>>, <<2>>>>, a |-> <<Opnd(1), Opnd(2)>>, subs |-> <<<<0, 0>>, <<1>>>>, out |-> <<1>>],              \* ii,j->j  (trace times vector)
+            [sh |-> <<<<2, 3>>, <<3>>>>, a |-> <<Opnd(1), Opnd(1)>>, subs |-> <<<<0, 1>>, <<0, 1>>>>, out |-> <<1>>],           \* ij,ij->j  same operand twice
+            [sh |-> <<<<2, 2>>, <<3>>>>, a |-> <<Opnd(1), Opnd(1)>>, subs |-> <<<<0, 1>>, <<1, 0>>>>, out |-> <<>>],            \* ij,ji->   same operand twice
+            [sh |-> <<<<2, 3>>, <<3>>>>, a |-> <<Opnd(1), Opnd(2), Opnd(2)>>, subs |-> <<<<0, 1>>, <<1>>, <<1>>>>, out |-> <<0>>], \* ij,j,j->i
+            [sh |-> <<<<2, 3>>, <<3>>>>, a |-> <<Opnd(1)>>, subs |-> <<<<0, 1>>>>, out |-> <<0>>],                              \* ij->i
+            [sh |-> <<<<2, 3>>, <<3>>>>, a |-> <<Opnd(1)>>, subs |-> <<<<0, 1>>>>, out |-> <<>>],                               \* ij->
+            [sh |-> <<<<3, 3>>, <<3>>>>, a |-> <<Opnd(1)>>, subs |-> <<<<0, 0>>>>, out |-> <<>>],                               \* ii->   (trace)
+            [sh |-> <<<<2, 1, 3>>, <<3, 2>>>>, a |-> <<Opnd(1), Opnd(2)>>, subs |-> <<<<0, 1, 2>>, <<2, 3>>>>, out |-> <<0, 3>>]}}  \* ijk,kl->il (sums a length-1 axis)
+\* ---------------------------------------------------------------- convolution and pooling (valid configurations only; C16 decides validity)
+ConvConfigs ==
+  {[x |-> <<1, 1, 5>>, w |-> <<1, 1, 2>>, st |-> <<1>>, pd |-> <<0>>, dl |-> <<1>>],
+   [x |-> <<2, 2, 5>>, w |-> <<2, 2, 3>>, st |-> <<2>>, pd |-> <<0>>, dl |-> <<1>>],
+   [x |-> <<1, 2, 4>>, w |-> <<3, 2, 2>>, st |-> <<1>>, pd |-> <<1>>, dl |-> <<2>>],
+   [x |-> <<1, 1, 6>>, w |-> <<1, 1, 2>>, st |-> <<3>>, pd |-> <<1>>, dl |-> <<1>>],
+   [x |-> <<1, 1, 3, 3>>, w |-> <<1, 1, 2, 2>>, st |-> <<1, 1>>, pd |-> <<0, 0>>, dl |-> <<1, 1>>],
+   [x |-> <<1, 2, 3, 5>>, w |-> <<2, 2, 2, 2>>, st |-> <<1, 2>>, pd |-> <<0, 1>>, dl |-> <<1, 2>>],
+   [x |-> <<2, 1, 5, 3>>, w |-> <<1, 1, 2, 3>>, st |-> <<2, 1>>, pd |-> <<1, 0>>, dl |-> <<2, 1>>]}
+\* every configuration tiles the padded data exactly (C16's validity predicate); TLC checks this when the module is loaded
+ASSUME \A c \in ConvConfigs : \A j \in 1..(Len(c.x) - 2) : ConvValidDim(c.x[j + 2], c.w[j + 2], c.st[j], c.pd[j], c.dl[j])
+ConvProgs ==
+  {<< Leaf(1, c.x, "A", k[1]), Leaf(2, c.w, "B", k[2]),
+      [k |-> "op", h |-> 3, f |-> "conv", a |-> <<Opnd(1), Opnd(2)>>, stride |-> c.st, pad |-> c.pd, dil |-> c.dl] >> :
+     k \in Kinds2, c \in ConvConfigs}
+PoolProgs ==
+  {<< Leaf(1, c.x, "D", FALSE), [k |-> "op", h |-> 2, f |-> "maxpool", a |-> <<Opnd(1)>>, pool |-> c.p, stride |-> c.st] >> :
+     c \in {[x |-> <<6>>, p |-> <<2>>, st |-> <<2>>], [x |-> <<5>>, p |-> <<3>>, st |-> <<1>>], [x |-> <<2, 6>>, p |-> <<2>>, st |-> <<2>>],
+            [x |-> <<2, 5>>, p |-> <<3>>, st |-> <<2>>], [x |-> <<3, 4>>, p |-> <<2, 2>>, st |-> <<1, 2>>],
+            [x |-> <<2, 3, 3>>, p |-> <<2, 2>>, st |-> <<1, 1>>], [x |-> <<1, 2, 4, 4>>, p |-> <<2, 2>>, st |-> <<2, 2>>],
+            [x |-> <<4, 3>>, p |-> <<3, 1>>, st |-> <<1, 2>>]}}
+  \* overlapping windows sharing the maximum, and a decreasing ramp (the maximum is the first element of every window)
+  \cup {<< [k |-> "leaf", h |-> 1, sh |-> <<5>>, v |-> vv, const |-> FALSE],
+           [k |-> "op", h |-> 2, f |-> "maxpool", a |-> <<Opnd(1)>>, pool |-> <<3>>, stride |-> <<1>>] >> :
+          vv \in {<<Q(1), Q(2), Q(9), Q(3), Q(4)>>, <<Q(5), Q(4), Q(3), Q(2), Q(1)>>, <<Q(1), Q(7), Q(2), Q(8), Q(3)>>}}
+\* ---------------------------------------------------------------- piecewise-linear losses (thresholds hit exactly)
+LossProgs ==
+  {<< Leaf(1, sh, "A", k[1]), Leaf(2, sh, "B", k[2]),
+      [k |-> "op", h |-> 3, f |-> "margin_ranking", a |-> <<Opnd(1), Opnd(2)>>, y |-> y, margin |-> m] >> :
+     k \in Kinds2, m \in {Q(1), Q(0), H2(1), Q(3)},
+     sh \in {<<4>>, <<2, 3>>}, y \in {[sh |-> <<>>, v |-> <<Q(1)>>], [sh |-> <<>>, v |-> <<Q(-1)>>]}}
+  \cup {<< Leaf(1, <<4>>, "A", FALSE), Leaf(2, <<4>>, "B", FALSE),
+           [k |-> "op", h |-> 3, f |-> "margin_ranking", a |-> <<Opnd(1), Opnd(2)>>,
+            y |-> [sh |-> <<4>>, v |-> <<Q(1), Q(-1), Q(-1), Q(1)>>], margin |-> m] >> : m \in {Q(1), H2(3)}}
+  \cup UNION {{<< Leaf(1, sh, nm, FALSE), [k |-> "op", h |-> 2, f |-> "multiclass_hinge", a |-> <<Opnd(1)>>, y |-> y, hinge |-> hg] >> :
+                 nm \in {"A", "B"}, hg \in {Q(1), Q(2), H2(1), Q(0)},
+                 y \in {[i \in 1..sh[1] |-> (i * 2) % sh[2]], [i \in 1..sh[1] |-> 0]}}
+              : sh \in {<<3, 3>>, <<2, 4>>, <<1, 2>>}}
+
 Progs == CASE Group = "binary" -> BinProgs [] Group = "unary" -> UnProgs [] Group = "reduce" -> RedProgs
            [] Group = "matmul" -> MatProgs [] Group = "getitem" -> GetProgs [] Group = "setitem" -> SetProgs
            [] Group = "whereout" -> WhereOutProgs [] Group = "move" -> MoveProgs
+           [] Group = "activation" -> ActProgs [] Group = "cumulative" -> CumProgs [] Group = "sequence" -> SeqProgs
+           [] Group = "einsum" -> EinProgs [] Group = "conv" -> ConvProgs [] Group = "maxpool" -> PoolProgs
+           [] Group = "loss" -> LossProgs
 
 Init == cellprog \in Progs
 Next == UNCHANGED cellprog
